@@ -1,7 +1,7 @@
 """C16 - schema_translate_map renders the mapped schemas regardless of cache state.
 
 Model: coq/sql/SchemaTr.v (symbol_getter tokens, the regex replace as a scanner, the compiled cache whose
-key holds only bool(map), DDL compiled per execution, the pre-executed SQL default compiled without map).
+key holds only bool(map), DDL compiled per execution, the pre-executed SQL default compiled with the current map).
 A statement is modelled as the list of pieces of its SQL text: literal text and schema-prefix places.  The
 literal pieces of every generated statement are MEASURED on the implementation (the same statement built
 on sentinel schemas, executed, cursor SQL split at the sentinels), so the model is compared on exactly the
@@ -631,8 +631,8 @@ def impl(c):
 
         # ---- the property, directly ----
         slots = [sl_a] + ([sl_b] if kind in TWO_SLOT else [])
-        # the pre-executed default's table never passes through the placeholder path
-        mapped = [sl for sl in (slots[:1] if kind == K_DEFAULT else slots) if not sl[0]]
+        # (the pre-executed default's table passes through the placeholder path too, since fix d3878ef)
+        mapped = [sl for sl in slots if not sl[0]]
         has_map = bool(m)
         brack = any(sl[1] and any(ch in unS(sl[1][0]) for ch in "[]") for sl in mapped)
         none_now = has_map and None in m
@@ -641,11 +641,10 @@ def impl(c):
         if has_map and not brack and not ddl and sid not in gov:
             gov[sid] = none_now
         v = None
-        # the known "_none" deviation: a translated schema or a caller's key is literally "_none", or the alias
-        # SQLAlchemy wrote into a reused dict stands in for a None key the caller has removed.  (A leaked alias
-        # next to a None key that is still there must be harmless: the current None entry wins)
-        none_name = (any(sl[1] and unS(sl[1][0]) == "_none" for sl in mapped) or (has_map and "_none" in m)
-                     or (leaked and None not in m))
+        # the known "_none" deviation: a translated schema or a caller's key is literally "_none".  (Since fix
+        # a436594 SQLAlchemy no longer writes an alias "_none" into the caller's dict; should a reused dict carry
+        # one again - `leaked` - any resulting misbehaviour is an unlisted violation)
+        none_name = any(sl[1] and unS(sl[1][0]) == "_none" for sl in mapped) or (has_map and "_none" in m)
         if code == 3:
             if not (has_map and brack):
                 v = "CompileError (bracket) without a bracket name in a translated schema"
@@ -678,8 +677,6 @@ def impl(c):
                     v = "none-name: " + what
                 elif kind == K_MARKER and has_map:
                     v = "marker-text: " + what
-                elif kind == K_DEFAULT and has_map and (not sl_b[0]) and unO(sl_b[1]) in m:
-                    v = "scalar-default: " + what
                 elif falsy_used and _same(res, direct(DFLT)):
                     v = "none-target: " + what
                 elif forced_unmapped and _same(res, direct(None, drop_force=True)):
@@ -710,7 +707,6 @@ _TAGS = {
     "none-name: ": "C16-schema-named-_none-collides",
     "marker-text: ": "C16-token-lookalike-in-text-rewritten",
     "quote-flag: ": "C16-quote-flag-of-unmapped-schema-lost",
-    "scalar-default: ": "C16-preexecuted-default-not-translated",
 }
 
 
